@@ -1,6 +1,7 @@
 #include <algorithm>
 
 #include "Compiler/include/ParserGenerator/grammar.hpp"
+#include "VM/include/verif_hook.hpp"
 
 using namespace Theo;
 
@@ -58,6 +59,7 @@ void Grammar::calculateFirstSets() {
   first_sets.insert(std::make_pair(Symbol::Epsilon(), std::set<Symbol>{}));
   max_used_terminal = 0;
   while (changed) {  // repeat until nothing changes:
+    THEO_VERIF_POINT(LR_FIRST_ROUND, first_sets.size(), 0);
     changed = false;
     // 1) if X is a terminal, FIRST(X) = {X}
     // 2) if X -> ø exists, FIRST(X) = FIRST(X) v {ø}
